@@ -44,8 +44,10 @@ PROFILES = {
     },
     "hourly": {
         "seed1": dict(kwargs={"settings": {"seed": 1}}),
+        "seed0": dict(kwargs={"settings": {"seed": 0}}),   # a legal seed that is falsy
         "robust": dict(kwargs={"settings": {"seed": 7, "scaling_method": "robustscaler"}}),
         "solar": dict(kwargs={"settings": {"train_features": ["temperature", "ghi"], "seed": 3}}, needs_ghi=True),
+        "solar_rev": dict(kwargs={"settings": {"train_features": ["ghi", "temperature"], "seed": 3}}, needs_ghi=True),
         "nonsolar": dict(kwargs={"settings": {"train_features": ["temperature"], "seed": 3}}),
         "adaptive": dict(kwargs={"settings": {"seed": 2, "elasticnet": {
             "adaptive_weights": True, "adaptive_weight_max_iter": 8, "adaptive_weight_tol": 1e-4}}}),
@@ -53,6 +55,10 @@ PROFILES = {
             "method": "equal_bin_width", "n_bins": 6, "bin_width": None, "include_edge_bins": False,
             "edge_bin_rate": None, "edge_bin_percent": None}}}),
         "lowthr": dict(kwargs={"settings": {"seed": 5, "cvrmse_threshold": 0.01, "pnrmse_threshold": 0.01}}),
+        "cvonly": dict(kwargs={"settings": {"seed": 6, "cvrmse_threshold": 0.01}}),   # misses CVRMSE only: acceptable
+        "pnonly": dict(kwargs={"settings": {"seed": 6, "pnrmse_threshold": 0.01}}),   # misses PNRMSE only: acceptable
+        "noedge": dict(kwargs={"settings": {"seed": 8, "temperature_bin": {
+            "include_edge_bins": False, "edge_bin_rate": None, "edge_bin_percent": None}}}),
         "obj": dict(kwargs={"settings": "OBJ"}),  # a settings object instead of a dict
     },
     "caltrack": {
